@@ -190,6 +190,17 @@ class COVDetection(DetectionAlgorithm):
         # remove it from the subscription list for its object
         self.cov_subscriptions.remove(cov)
 
+    def send_initial_notification(self, cov):
+        if _debug: COVDetection._debug("send_initial_notification %r", cov)
+
+        # this runs deferred, the subscription may have been canceled or may
+        # have expired in the meantime
+        if cov not in self.cov_subscriptions.cov_subscriptions:
+            if _debug: COVDetection._debug("    - subscription is gone")
+            return
+
+        self.send_cov_notifications(cov)
+
     def execute(self):
         if _debug: COVDetection._debug("execute")
 
@@ -764,7 +775,7 @@ class ChangeOfValueServices(Capability):
         # so send it a notification when you get a chance.
         if not cancel_subscription:
             if _debug: ChangeOfValueServices._debug("    - send a notification")
-            deferred(cov_detection.send_cov_notifications, cov)
+            deferred(cov_detection.send_initial_notification, cov)
 
     def do_SubscribeCOVPropertyRequest(self, apdu):
         if _debug: ChangeOfValueServices._debug("do_SubscribeCOVPropertyRequest %r", apdu)
@@ -848,4 +859,4 @@ class ChangeOfValueServices(Capability):
         # so send it a notification when you get a chance.
         if not cancel_subscription:
             if _debug: ChangeOfValueServices._debug("    - send a notification")
-            deferred(cov_detection.send_cov_notifications, cov)
+            deferred(cov_detection.send_initial_notification, cov)
